@@ -15,7 +15,11 @@ class MsgEnd(AbstractMessagingTransport):
         self.link, self.side = link, side
         self.closed = 0
 
+    send_delay_ms = 0
+
     async def send_frame(self, frame):
+        if self.send_delay_ms:
+            await asyncio.sleep(self.send_delay_ms / 1000.0)      # a write that takes its time (a slow reader behind drain())
         self.link.wire[self.side].append(frame.serialize())
         self.link.sent_frames[self.side].append(frame)
 
